@@ -3,3 +3,6 @@
 package actionlint
 
 func verifC10NativeMulti(lab string, ord []int) {}
+
+func verifC14NativeActionDir() {}
+func verifC14Root() string      { return "/r" }
